@@ -3,7 +3,7 @@
    that passes [forallb gated] — the table generated from the current source is obliged to
    (Gen/GenOKRoutes.v) — and for the mux main() serves after the D17 repair. *)
 From Coq Require Import List Bool NArith String.
-From RV Require Import Base.Text Api.Auth Api.AuthProofs.
+From RV Require Import Base.Text Api.Auth Api.AuthProofs Api.Post Api.PostProofs.
 Import ListNotations.
 Local Open Scope string_scope.
 
@@ -87,3 +87,20 @@ Theorem C11_mux_total : forall path,
     else if has_prefix "/" path then Some TPrivate else None.
 Proof. exact model_mux_total. Qed.
 Print Assumptions C11_mux_total.
+
+(* the gate on a node whose state machine lags behind its log (restart replay, slow apply, follower
+   catching up): answering from a replay of any strict prefix, it never says "No such session" for
+   the id of an entry still ahead of it — e.g. a session whose CreateSession entry is committed but
+   not yet applied; the answer is "not yet seen" (also cited by C17).  Ids are raft indexes. *)
+Theorem C11_lagging_view_not_gone : forall st0 b l1 e o l2,
+  (st_lastproc st0 <= b)%N -> ids_increase b (l1 ++ (e, o) :: l2) ->
+  get_session (replay l1 st0) (e_id e) <> GsNoSuch.
+Proof. exact lagging_view_not_gone. Qed.
+Print Assumptions C11_lagging_view_not_gone.
+
+Theorem C11_lagging_check_not_gone : forall st0 b l1 e o l2 hdr t,
+  (st_lastproc st0 <= b)%N -> ids_increase b (l1 ++ (e, o) :: l2) ->
+  parse_uint0 t = Some (e_id e) ->
+  session_check (replay l1 st0) hdr t <> inr RNoSuch.
+Proof. exact lagging_check_not_gone. Qed.
+Print Assumptions C11_lagging_check_not_gone.
